@@ -174,6 +174,10 @@ func NewRouterInfo(
 func createPublishedDate(publishedTime time.Time) (*data.Date, error) {
 	// UnixMilli is exact for every instant; UnixNano overflows int64 after the year 2262
 	millis := publishedTime.UnixMilli()
+	if millis == 0 {
+		// a zero Date means "undefined"; RouterInfo.Validate rejects it, so the constructor does too
+		return nil, oops.Errorf("published date cannot be zero")
+	}
 	dateBytes := make([]byte, data.DATE_SIZE)
 	binary.BigEndian.PutUint64(dateBytes, uint64(millis))
 	publishedDate, _, err := data.ReadDate(dateBytes)
